@@ -77,6 +77,13 @@ impl Otaa {
     }
 }
 
+#[cfg(lora_rs_verif)]
+impl Otaa {
+    pub(crate) fn verif_dev_nonce(&self) -> u16 {
+        self.dev_nonce.value()
+    }
+}
+
 impl NetworkCredentials {
     pub fn new(appeui: AppEui, deveui: DevEui, appkey: AppKey) -> Self {
         Self { deveui, appeui, appkey }
